@@ -95,6 +95,19 @@ def _requests(ttb, o, rs):
     A("T+T2", "T", lambda: T + T2)
     A("T*T2", "T", lambda: T * T2)
     A("T.mask(bigger)", "T", lambda: T.mask(T2))
+    # a mask that is smaller in an earlier mode and larger in a later one (and the other way round), of another order
+    if N >= 2:
+        up = tuple((max(d - 1, 1) if m == 0 else d + 2) if m < 2 else d for m, d in enumerate(shp))
+        down = tuple((d + 2 if m == 0 else max(d - 1, 1)) if m < 2 else d for m, d in enumerate(shp))
+        for nm, wshape in (("smaller-then-larger", up), ("larger-then-smaller", down)):
+            for hn, holder in (("K", K), ("T", T), ("S", S)):
+                Wd = ttb.tensor(np.ones(wshape))
+                for wk, W in (("dense-mask", Wd), ("sparse-mask", Wd.to_sptensor())):
+                    if hn == "T" and wk == "sparse-mask":
+                        continue
+                    A(f"{hn}.mask({nm}:{wk})", hn, lambda holder=holder, W=W: holder.mask(W))
+    A("K.mask(bigger)", "K", lambda: K.mask(S2))
+    A("K.mask(other-order)", "K", lambda: K.mask(ttb.tensor(np.ones(shp + (1,))).to_sptensor()))
     A("tensor(data,wrong-shape)", None, lambda: ttb.tensor(np.ones(6), (2, 2)))
     A("tensor(non-numeric)", None, lambda: ttb.tensor(np.array(["a", "b"])))
     # sparse
